@@ -1,5 +1,6 @@
 import KoordVerif.Common.Proto
 import KoordVerif.Model.C07
+import KoordVerif.Model.C07Hist
 /-
 Driver for C07.  One case = one history on one node; three device types (0 gpu, 1 rdma, 2 fpga),
 three resource dimensions per type.  A resource list is 3 tokens, `_` = key absent.
@@ -9,10 +10,16 @@ three resource dimensions per type.  A resource list is 3 tokens, `_` = key abse
   auto  <type> q q q <nreq> m* <npref> m* <view>            (DefaultDeviceHandler split, then as alloc mode 0)
      <view>   ::= 0 | 1 <hasminors> <nm> m* <npre> (<minor> q q q)* <nrr> (<minor> q q q)*
      <result> ::= (mode 0: nothing) | (mode 1: <ok> <k> m*)      the implementation's own choice, to be checked
-After ref/add/rem: the ledger, value-based (missing = 0), only devices with a non-zero entry:
+  upd <pod> <hasOld> <oldAssigned> <newAssigned> <newTerminated> <groups old> <groups new>   onPodUpdate / onPodAdd
+  del <pod> <assigned> <groups>                                                          onPodDelete
+     (the model's updatePodOps / deletePodOps decide which ledger ops happen, per device type)
+  addq / refq / updq / delq: as add / ref / upd / del without output (exhaustive stream: one dump per history)
+After ref/add/rem/upd/del: the ledger, value-based (missing = 0), only devices with a non-zero entry:
   d <type> <minor> <total>*3 <free>*3 <used>*3        p <type> <pod> <k> (<minor> v v v)*
+then  x <wf> <exact>   the history predicates so far (histWFB / histExact of Model/C07Hist.lean, all types)
 alloc/auto print the filtered view (`v <minor> …` lines) when a view is used, then
-  alloc fail | alloc ok <k> m*   (mode 0: in selection order; mode 1: sorted, or `alloc inconsistent <code>`).
+  alloc fail | alloc ok <k> m*   (mode 0: in selection order; mode 1: sorted, or `alloc inconsistent <code>`),
+  after `alloc ok` with k > 0:  cov <0|1>  = chosenCovered (every chosen device exposes every requested key).
 -/
 namespace KoordVerif.C07
 open KoordVerif.Proto
@@ -106,11 +113,30 @@ def dump (n : Node) : List String :=
   ((List.range ntypes).flatMap fun t => dumpT "d" true t (nodeGet n t)) ++
   ((List.range ntypes).flatMap fun t => dumpPods t (nodeGet n t))
 
-def applyAllocs (n : Node) (p : Nat) (add : Bool) (groups : List (Nat × List (Nat × RL))) : Node :=
-  groups.foldl (fun n g =>
-    if g.1 ≥ ntypes then n else
-    let s := nodeGet n g.1
-    nodeSet n g.1 (if add then addT s p g.2 else removeT s p g.2)) n
+/-- driver state: the node + the history predicates evaluated so far -/
+structure DState where
+  node  : Node
+  wf    : Bool
+  exact : Bool
+
+/-- apply ledger ops to one device type, evaluating `opWFB` / `opExact` on the way -/
+def applyOps (d : DState) (t : Nat) (ops : List Op) : DState :=
+  if t ≥ ntypes then d else
+  ops.foldl (fun d op =>
+    let s := nodeGet d.node t
+    { node := nodeSet d.node t (step s op), wf := d.wf && opWFB op, exact := d.exact && opExact s op }) d
+
+def applyAllocs (d : DState) (p : Nat) (add : Bool) (groups : List (Nat × List (Nat × RL))) : DState :=
+  groups.foldl (fun d g => applyOps d g.1 [if add then Op.add p g.2 else Op.remove p g.2]) d
+
+def groupGet (groups : List (Nat × List (Nat × RL))) (t : Nat) : Option (List (Nat × RL)) :=
+  (groups.find? (fun g => g.1 == t)).map (·.2)
+
+def flagLine (d : DState) : String := s!"x {if d.wf then 1 else 0} {if d.exact then 1 else 0}"
+
+def covLine (w : TState) (a : AllocReq) : Option (List Nat) → List String
+  | some (m :: ms) => [s!"cov {if chosenCovered w a (m :: ms) then 1 else 0}"]
+  | _ => []
 
 def pGroups : P (List (Nat × List (Nat × RL))) := do
   let nt ← pNat
@@ -129,22 +155,43 @@ def viewOf (s : TState) : Option View → TState × List String
     let w := filterT s v.minors v.preempt v.required
     (w, dumpT "v" false 0 w)
 
-def runLine (n : Node) (line : String) : Node × List String :=
+def runLine (d : DState) (line : String) : DState × List String :=
+  let n := d.node
   match toks line with
-  | "ref" :: rest =>
-    match (do let es ← pNat >>= fun k => pRep k (do let t ← pNat; let e ← pEntry; pure (t, e)); pEnd; pure es).run' rest with
-    | some es =>
-      let n' := (List.range ntypes).map fun t =>
-        refreshT (nodeGet n t) (mkMap ((es.filter (fun e => e.1 == t)).map (·.2)))
-      (n', dump n')
-    | none => (n, ["bad-op"])
   | kind :: rest =>
-    if kind = "add" || kind = "rem" || kind = "remq" then
+    if kind = "ref" || kind = "refq" then
+      match (do let es ← pNat >>= fun k => pRep k (do let t ← pNat; let e ← pEntry; pure (t, e)); pEnd; pure es).run' rest with
+      | some es =>
+        let d' := (List.range ntypes).foldl (fun d t =>
+          applyOps d t [Op.refresh (mkMap ((es.filter (fun e => e.1 == t)).map (·.2)))]) d
+        (d', if kind = "refq" then [] else dump d'.node ++ [flagLine d'])
+      | none => (d, ["bad-op"])
+    else if kind = "add" || kind = "rem" || kind = "remq" || kind = "addq" then
       match (do let p ← pNat; let g ← pGroups; pEnd; pure (p, g)).run' rest with
       | some (p, g) =>
-        let n' := applyAllocs n p (kind = "add") g
-        (n', if kind = "remq" then [] else dump n')
-      | none => (n, ["bad-op"])
+        let d' := applyAllocs d p (kind = "add" || kind = "addq") g
+        (d', if kind = "remq" || kind = "addq" then [] else dump d'.node ++ [flagLine d'])
+      | none => (d, ["bad-op"])
+    else if kind = "upd" || kind = "updq" then
+      match (do
+          let p ← pNat; let hasOld ← pNat; let oa ← pNat; let na ← pNat; let nterm ← pNat
+          let go ← pGroups; let gn ← pGroups; pEnd
+          pure (p, hasOld, oa, na, nterm, go, gn)).run' rest with
+      | some (p, hasOld, oa, na, nterm, go, gn) =>
+        let d' := (List.range ntypes).foldl (fun d t =>
+          let old : Option PodObj :=
+            if hasOld = 0 then none else some { assigned := oa != 0, terminated := false, alloc := groupGet go t }
+          let new : PodObj := { assigned := na != 0, terminated := nterm != 0, alloc := groupGet gn t }
+          applyOps d t (updatePodOps p old new)) d
+        (d', if kind = "updq" then [] else dump d'.node ++ [flagLine d'])
+      | none => (d, ["bad-op"])
+    else if kind = "del" || kind = "delq" then
+      match (do let p ← pNat; let a ← pNat; let g ← pGroups; pEnd; pure (p, a, g)).run' rest with
+      | some (p, a, g) =>
+        let d' := (List.range ntypes).foldl (fun d t =>
+          applyOps d t (deletePodOps p { assigned := a != 0, terminated := false, alloc := groupGet g t })) d
+        (d', if kind = "delq" then [] else dump d'.node ++ [flagLine d'])
+      | none => (d, ["bad-op"])
     else if kind = "alloc" then
       match (do
           let t ← pNat; let mode ← pNat; let desired ← pNat; let npcie ← pNat; let req ← pRL
@@ -154,14 +201,14 @@ def runLine (n : Node) (line : String) : Node × List String :=
           pEnd
           pure (t, mode, ({ req, desired, npcie, required, preferred } : AllocReq), view, res)).run' rest with
       | some (t, mode, a, view, res) =>
-        if t ≥ ntypes || mode > 1 then (n, ["bad-op"]) else
+        if t ≥ ntypes || mode > 1 then (d, ["bad-op"]) else
         let (w, vlines) := viewOf (nodeGet n t) view
         match res with
-        | none => (n, vlines ++ [showAlloc true (allocate w a)])
+        | none => (d, vlines ++ [showAlloc true (allocate w a)] ++ covLine w a (allocate w a))
         | some r =>
           let code := checkResult w a r
-          (n, vlines ++ [if code = 0 then showAlloc false r else s!"alloc inconsistent {code}"])
-      | none => (n, ["bad-op"])
+          (d, vlines ++ (if code = 0 then [showAlloc false r] ++ covLine w a r else [s!"alloc inconsistent {code}"]))
+      | none => (d, ["bad-op"])
     else if kind = "auto" then
       match (do
           let t ← pNat; let podReq ← pRL
@@ -169,27 +216,27 @@ def runLine (n : Node) (line : String) : Node × List String :=
           pEnd
           pure (t, podReq, required, preferred, view)).run' rest with
       | some (t, podReq, required, preferred, view) =>
-        if t = 0 || t ≥ ntypes then (n, ["bad-op"]) else
+        if t = 0 || t ≥ ntypes then (d, ["bad-op"]) else
         let s := nodeGet n t
         -- calcRequestsAndCountByDeviceType: zero request ⇒ type skipped ⇒ nothing allocated;
         -- handler: no device of the type at all ⇒ unschedulable
-        if rlIsZero podReq || s.total.isEmpty then (n, ["alloc fail"]) else
+        if rlIsZero podReq || s.total.isEmpty then (d, ["alloc fail"]) else
         let (req, cnt) := handlerSplit podReq
         let a : AllocReq := { req, desired := cnt, npcie := 0, required, preferred }
         let (w, _) := viewOf s view
-        (n, [showAlloc true (allocate w a)])
-      | none => (n, ["bad-op"])
-    else (n, ["bad-op"])
-  | [] => (n, ["bad-op"])
+        (d, [showAlloc true (allocate w a)] ++ covLine w a (allocate w a))
+      | none => (d, ["bad-op"])
+    else (d, ["bad-op"])
+  | [] => (d, ["bad-op"])
 
-def runLines : Node → List String → List String
+def runLines : DState → List String → List String
   | _, [] => []
-  | n, l :: ls =>
-    let (n', out) := runLine n l
-    out ++ runLines n' ls
+  | d, l :: ls =>
+    let (d', out) := runLine d l
+    out ++ runLines d' ls
 
 def runCase (lines : List String) : List String :=
-  runLines (List.replicate ntypes TState.empty) lines
+  runLines { node := List.replicate ntypes TState.empty, wf := true, exact := true } lines
 
 end KoordVerif.C07
 
